@@ -68,7 +68,7 @@ def tensors(p):
             if c.get("as_parameter"):
                 data = Parameter(data)
             t = build(name, D, data, c.get("order"))
-            ti = t.inverse(link=False)
+            ti = t.inverse(link=bool(c.get("link")))
             with torch.no_grad():
                 r = {"fwd": t.tensor()[0].tolist(), "inv": ti.tensor()[0].tolist()}
                 if name in ("EulerRotation",):
@@ -282,10 +282,42 @@ def oracle(p):
             finally:
                 torch.set_default_dtype(torch.float64)
     velocity_direct_checks(rng, max(24, n // 5), report, counts)
+    steps0_checks(rng, report, counts)
     best = {}
     for f in fails:
         best.setdefault(f["key"], f)
     return {"fails": list(best.values()), "counts": counts}
+
+
+def steps0_checks(rng, report, counts):
+    """regression (be342f9): a velocity-field model with steps=0 (exp = scaling only, u is v itself) can be evaluated
+    and inverted"""
+    counts["steps0"] = 0
+    torch.set_default_dtype(torch.float32)
+    try:
+        for vname, kw in (("StationaryVelocityFieldTransform", {}), ("StationaryVelocityFreeFormDeformation", {"stride": 4})):
+            for scale in (None, 0.5):
+                g = Grid(size=(17, 15), align_corners=True)
+                cls = getattr(S, vname)
+                case = {"cls": vname, "steps": 0, "scale": scale}
+                try:
+                    shape = tuple(g.shape) if not kw else tuple(cls(g, params=None, **kw).data_shape[1:])
+                    v = smooth_field(random.Random(11), 2, shape, 0.1).float()
+                    t = cls(g, params=v, steps=0, scale=scale, **kw)
+                    x = (torch.rand((1, 20, 2), generator=torch.Generator().manual_seed(3)) - 0.5).float()
+                    with torch.no_grad():
+                        y = t(x)
+                        u, vv = t.tensor(), t.v
+                        z = t.inverse(update_buffers=True).forward(y)
+                    counts["steps0"] += 1
+                    d = maxerr(u, vv * (1.0 if scale is None else scale))
+                    e = maxerr(z, x) * (min(g.shape) - 1) / 2
+                    if d > 1e-6 or e > 0.1:
+                        report(f"C07:{vname}:steps=0:wrong", f"u differs from scale * v by {d:.3g}; round trip error {e:.3g} samples", case)
+                except Exception as e:  # noqa
+                    report(f"C07:{vname}:steps=0:raises", f"{type(e).__name__}: {str(e)[:120]}", case)
+    finally:
+        torch.set_default_dtype(torch.float64)
 
 
 def velocity_direct_checks(rng, n, report, counts):
